@@ -200,7 +200,7 @@ def cases(draw, tier):
         step["style"] = draw(st.sampled_from(STYLES))
         if n == 0 and draw(st.integers(0, 3)) == 0:  # an attribute name as the very first "event" (before a deferred activation)
             step["ev"] = draw(st.sampled_from(["current_state", "allowed_events", "current_state_value", "model", "s0"]))
-    fuzz = draw(st.lists(st.one_of(st.text(max_size=8), st.sampled_from(["__class__", "s0", "s1", "go ", " go", "Go", "send", "model", "_engine", "states", "events", "name", "H"])), max_size=6))
+    fuzz = draw(st.lists(st.one_of(st.text(max_size=8), st.sampled_from(["__class__", "s0", "s1", "go ", " go", "Go", "send", "model", "_engine", "states", "events", "name", "H", "__initial__", "__initial__"])), max_size=6))
     return {"spec": spec, "cfg": cfg, "history": hist, "fuzz_names": fuzz}
 
 
